@@ -51,7 +51,7 @@ static int sm_search(sm_spec_t *sp, int maxdepth) {
         if (maxdepth > 0 && d >= maxdepth) continue;
         if (d >= 3000) { complete = 0; continue; }
         if ((idx & 0xff) == 0 && vc_deadline_hit()) { complete = 0; break; }
-        if (vc_nviol > 400) { complete = 0; break; }   /* enough counterexamples: do not explore the damaged state space to its end */
+        if (VC_ENOUGH_VIOLATIONS()) { complete = 0; break; }   /* enough counterexamples: do not explore the damaged state space to its end */
         char *k = key; k += sprintf(k, "%s", sp->prefix);
         for (int i = 0; i < d; i++) k += sprintf(k, "%d,", hist[i]);
         for (int op = 0; op < sp->nops; op++) {
